@@ -123,6 +123,20 @@ def run(tier, seed):
             res3 = scenarios.run_scenario(Hr, year, forms, sseed, prof, initial=dict(items), refuse_after=0)
             if sf.snapshot(Hr, res3['solver'], res3['ok'], res3['exc']) != base:
                 probs.append('supplying the prompted answers in a (shuffled) file instead changes the result')
+            # ... and through a real file read by habutax itself (INI text written by configparser, no interpolation)
+            import configparser as _cp
+            cpf = _cp.ConfigParser(interpolation=None)
+            for k_, v_ in items:
+                sec_, opt_ = k_.split('.', 1)
+                if not cpf.has_section(sec_):
+                    cpf.add_section(sec_)
+                cpf.set(sec_, opt_, v_)
+            fpath = os.path.join(ck.build, 'typed_answers.ini')
+            with open(fpath, 'w') as fh:
+                cpf.write(fh)
+            res3b = scenarios.run_scenario(Hr, year, forms, sseed, prof, initial_file=fpath, refuse_after=0)
+            if sf.snapshot(Hr, res3b['solver'], res3b['ok'], res3b['exc']) != base:
+                probs.append('the answers typed at the prompt, read from an input FILE instead, change the result')
         else:
             # the prompted run aborted: the answers given so far come from the file now, the rest is still prompted - it must abort the same way
             res3 = scenarios.run_scenario(Hr, year, forms, sseed, prof, initial=dict(items))
@@ -134,6 +148,15 @@ def run(tier, seed):
             res4 = scenarios.run_scenario(Hr, year, list(reversed(forms)), sseed, prof)
             if base[0] != 'abort' and sf.snapshot(Hr, res4['solver'], res4['ok'], res4['exc']) != base:
                 probs.append('request order changes the result')
+        # (4) the copies the run pulled in, requested explicitly as well (in both orders): same closure, same result
+        if base[0] != 'abort' and res['ok']:
+            copies = sorted(n for n in res['solver'].forms.keys() if ':' in n)
+            if len(copies) >= 2:
+                for extra in (copies, list(reversed(copies))):
+                    res5 = scenarios.run_scenario(Hr, year, list(forms) + extra, sseed, prof, initial=dict(fin), refuse_after=0)
+                    if sf.snapshot(Hr, res5['solver'], res5['ok'], res5['exc']) != base:
+                        probs.append('requesting the copies %s explicitly (they are pulled in anyway) changes the result' % extra)
+                        break
         for p in probs[:2]:
             ck.violation('C05:real:%d:%s' % (year, '-'.join(re.sub(r'[^a-z ]+', ' ', p.lower()).split()[:4])), p,
                          {'kind': 'failing-input', 'year': year, 'forms': forms, 'seed': sseed, 'profile': prof,
